@@ -90,6 +90,8 @@ def self_from_constructor(ex, prog, db, st, fi, contract):
     if ic is None or ifi is None:
         raise Unsupported('self_from_init: no contract / constructor for ' + cls)
     icase = contract.options.get('init_case') or (db.cases_of(ic, 'quick')[0] if ic.options.get('cases') else {})
+    if isinstance(icase, list):
+        icase = icase[ex.init_case_index]
     obj = st.alloc(SObj(cls))
     env = {'self': obj}
     cparams = dict(ic.params)
@@ -102,7 +104,7 @@ def self_from_constructor(ex, prog, db, st, fi, contract):
             cv = icase[p]
             env[p] = None if cv == 'none' else (fresh_scalar(INT, 'init_' + p) if cv == 'int' else
                                                ((fresh_scalar(REAL, p + '_lo'), fresh_scalar(REAL, p + '_hi')) if cv == 'rpair' else
-                                                (make_param(ex, st, TArr('float', 1), 'init_' + p) if cv == 'arr1' else cv)))
+                                                (make_param(ex, st, TArr('float', 1), 'init_' + p) if cv == 'arr1' else (make_param(ex, st, TArr('int', 1), 'init_' + p) if cv == 'arr1i' else cv))))
         elif p in cparams:
             env[p] = make_param(ex, st, eval_type(cparams[p]), 'init_' + p)
         else:
@@ -161,6 +163,7 @@ def verify_function(prog, db, q, contract, case=None):
         fr.degraded = 'function %s no longer exists' % q
         return fr
     ex.cur = fi
+    ex.init_case_index = case.get('init', 0)
     if 'assign_shape' in case:
         st_ghost_assign = case['assign_shape']
     ex.case_tag = ('@' + ','.join('%s=%s' % (k, case[k]) for k in sorted(case))) if case else ''
@@ -177,6 +180,8 @@ def verify_function(prog, db, q, contract, case=None):
         for k, p in enumerate(real_params):
             if p == 'self' and contract.options.get('self_from_init'):
                 env[p] = self_from_constructor(ex, prog, db, st, fi, contract)
+                continue
+            if p == 'init':
                 continue
             if p in case:
                 cv = case[p]
